@@ -17,6 +17,9 @@ WHAT = {
  'swapped stop and step': ("C08", "get_literal_expr(range(2, 1, 3)) rendered with stop and step swapped (lit_range kind=1 a=3 b=2 c=2)"),
  'is_singleton raised': ("C08", "is_singleton(bytearray(b'a')) / is_singleton({...}) raised TypeError: dumper creation with omit_default fails for unhashable literal defaults (singleton_atom s=18)"),
  'shared one cache entry': ("C11", "Literal[0,1] then Literal[False,True] on one retort: second loader is the first one (cached_call key by ==): strict load accepts 0, rejects True (hist_loader_litFT hi=0 d=0; literal_site_strict_*)"),
+ 'zero-valued member': ("C18", "flag_by_member_names: loader/dumper creation raised 'math domain error' for a flag with NONE = 0 (flag_creation: F3z)"),
+ 'unhashable list items': ("C18", "flag_by_member_names loader, allow_duplicates=False: ['A', ['A']] -> TypeError escaped instead of LoadError (flag_names_rej_* i0=8)"),
+ 'multi-bit members': ("C18", "flag_by_exact_value loader: load(11, Flag(LOW=3, MID=6, HIGH=12)) -> ValueError escaped (flag_exact_FMulti d=11)"),
 }
 WHAT.update(json.load(open('/verif/tools/fixed_extra.json')) if __import__('os').path.exists('/verif/tools/fixed_extra.json') else {})
 log = subprocess.run(["git", "-C", "/repo", "log", "--format=%h %s"], capture_output=True, text=True).stdout.splitlines()
